@@ -11,8 +11,9 @@ class GenerateError(Exception):
 
 CPP_RUNTIME_NAMES = frozenset(
     [t + w + "_t" for t in ("int", "uint") for w in ("8", "16", "32", "64")] +
-    ["size_t", "native", "little", "big", "indent", "prophy", "std", "encoded_byte_size"]
+    ["size_t", "prophy", "std", "encoded_byte_size"]
 )
+""" names both C++ runtimes use unqualified """
 
 
 CPP_MEMBER_NAMES = frozenset(
@@ -25,9 +26,11 @@ CPP_MEMBER_NAMES = frozenset(
 CPP_FULL_RUNTIME_NAMES = frozenset([
     "array", "optional", "message", "message_impl", "encoder", "decoder", "printer", "align", "align_ptr", "alignment", "nearest",
     "byte_size", "int2type", "codec_traits", "print_traits", "do_encode", "do_decode", "do_print", "endianness", "detail",
-    "generated", "swap", "discriminator", "encode", "decode", "print", "get_byte_size"
+    "generated", "swap", "discriminator", "encode", "decode", "print", "get_byte_size", "native", "little", "big", "indent",
+    "do_decode_advance", "do_decode_align", "do_decode_greedy", "do_decode_in_place", "do_decode_resize", "encode_int", "decode_int",
+    "print_byte", "indent_t", "is_class_or_union", "decoder_greedy", "heap_value", "optional_detail", "to_literal"
 ])
-CPP_FULL_MEMBER_NAMES = frozenset(["array", "optional"])
+CPP_FULL_MEMBER_NAMES = frozenset(["array", "optional", "encode", "decode", "print", "get_byte_size"])
 """ names of prophy::detail and of the generated classes that the full codec's sources use unqualified """
 
 
@@ -39,7 +42,7 @@ CPP_RAW_RUNTIME_NAMES = frozenset([
 
 def check_cpp_file_name(name):
     """ the name is written between the quotes of an #include directive """
-    if '"' in name:
+    if re.search(r'["\x00-\x1f]', name):
         raise GenerateError("file name '{}' cannot be written in an #include directive".format(name))
 
 
@@ -86,9 +89,11 @@ def check_cpp_names(nodes, _included=None, generated=None, runtime=frozenset(), 
             """ a size or discriminator expression is written inside the class: its names are looked up there first """
             texts = [getattr(member, attribute, None) for member in node.members for attribute in ("size", "discriminator")]
             member_names = set(member.name for member in node.members)
-            for name in re.findall(r"[A-Za-z_]\w*", " ".join(text for text in texts if isinstance(text, type(u"")) or isinstance(text, str))):
+            for name in re.findall(r"(?<![0-9A-Za-z_])[A-Za-z_]\w*", " ".join(text for text in texts if isinstance(text, type(u"")) or isinstance(text, str))):
                 if name in member_names or generated and re.match(generated, name):
                     raise GenerateError("'{}' in an expression of {} is the name of a member of the generated class".format(name, node.name))
+            if isinstance(node, model.Union) and any(re.match(r"discriminator(_\w*)?\Z", name) for name in member_names):
+                raise GenerateError("an arm of {} is named like the discriminator members of the generated union".format(node.name))
             if arm_types and isinstance(node, model.Union) and any(name + "_t" in member_names for name in member_names):
                 raise GenerateError("arms of {} are named <x> and <x>_t: the generated names discriminator_<x>_t collide".format(node.name))
 
